@@ -585,3 +585,77 @@ Lemma escaped_hex_byte_reading_refuted :
   fast_cmp_eval bytefast utf = Some false /\ fast_cmp_eval bytefast lat = Some true /\
   fast s utf = None /\ fast s lat = None.
 Proof. vm_compute. repeat split; reflexivity. Qed.
+
+(* ------------------------------------------------------------------ comparisons written literal-first *)
+Lemma mirror_op_involutive : forall o, mirror_op (mirror_op o) = o.
+Proof. destruct o; reflexivity. Qed.
+
+(* `lit OP v` (the three-way comparison seen from the literal: CompOpp) holds exactly when `v mirror(OP) lit` does *)
+Lemma mirror_op_swaps_operands : forall o c,
+  op_holds (mirror_op o) (option_map CompOpp c) = op_holds o c.
+Proof. destruct o; destruct c as [[| |]|]; reflexivity. Qed.
+
+Lemma mixed_mirror : forall o, mixed (mirror_op o) = mixed o.
+Proof. destruct o; reflexivity. Qed.
+
+Lemma take_while_head : forall p c r a b x, take_while p (c :: r) = (x :: a, b) -> p c = true.
+Proof.
+  intros p c r a b x H. simpl in H. destruct (p c) eqn:Hp; [reflexivity|discriminate].
+Qed.
+
+(* a literal starts with a quote, a minus sign or a digit *)
+Lemma parse_lit_head : forall c r l rest, parse_lit (c :: r) = Some (l, rest) ->
+  c = 39%N \/ c = 45%N \/ is_digit c = true.
+Proof.
+  intros c r l rest H. unfold parse_lit in H.
+  destruct (N.eqb c 39) eqn:H39; [left; apply N.eqb_eq; exact H39|].
+  destruct (N.eqb c 45) eqn:H45; [right; left; apply N.eqb_eq; exact H45|].
+  right; right.
+  destruct (take_while is_digit (c :: r)) as [ds s2] eqn:Htw.
+  destruct ds as [|d ds']; [discriminate|].
+  eapply take_while_head; exact Htw.
+Qed.
+
+Lemma lit_head_not_ident : forall c, c = 39%N \/ c = 45%N \/ is_digit c = true -> is_id0 c = false.
+Proof.
+  intros c [H|[H|H]]; try (subst c; reflexivity).
+  unfold is_digit, in_rng in H. apply andb_prop in H. destruct H as [H1 H2].
+  apply N.leb_le in H1. apply N.leb_le in H2.
+  unfold is_id0, in_rng.
+  assert (E1 : N.leb 65 c && N.leb c 90 = false).
+  { apply andb_false_iff. left. apply N.leb_gt. lia. }
+  assert (E2 : N.leb 97 c && N.leb c 122 = false).
+  { apply andb_false_iff. left. apply N.leb_gt. lia. }
+  assert (E3 : N.eqb c 95 = false) by (apply N.eqb_neq; lia).
+  rewrite E1, E2, E3. reflexivity.
+Qed.
+
+(* a comparison written literal-first is not of the shortcut shape *)
+Lemma literal_first_not_a_shape : forall s c, parse_cmp_lf s = Some c -> parse_cmp s = None.
+Proof.
+  intros s c H. unfold parse_cmp_lf in H. unfold parse_cmp.
+  destruct (skip_ws s) as [|c0 r0] eqn:Hs; [simpl in H; discriminate|].
+  destruct (parse_lit (c0 :: r0)) as [[l s1]|] eqn:Hl; [|discriminate].
+  apply parse_lit_head in Hl. apply lit_head_not_ident in Hl.
+  unfold parse_ident. rewrite Hl. reflexivity.
+Qed.
+
+Lemma map_opt_none : forall {A B} (f : A -> option B) l x, In x l -> f x = None -> map_opt f l = None.
+Proof.
+  intros A B f l x. induction l as [|y l IH]; intros Hin Hf; [destruct Hin|].
+  simpl. destruct Hin as [->|Hin].
+  - rewrite Hf. reflexivity.
+  - destruct (f y); [|reflexivity]. rewrite (IH Hin Hf). reflexivity.
+Qed.
+
+(* ... so no shortcut is compiled for it, alone or as a part of a flat chain: Evaluate takes the general path *)
+Theorem literal_first_never_shortcut : forall s c, parse_cmp_lf s = Some c ->
+  try_fast_compare s = None /\
+  (forall t, In s (split_logic [] t) -> try_fast_compound t = None).
+Proof.
+  intros s c H. apply literal_first_not_a_shape in H.
+  assert (Hc : try_fast_compare s = None) by (unfold try_fast_compare; rewrite H; reflexivity).
+  split; [exact Hc|].
+  intros t Hin. unfold try_fast_compound. destruct (chain_op t); [|reflexivity].
+  rewrite (map_opt_none try_fast_compare _ s Hin Hc). reflexivity.
+Qed.
